@@ -1135,7 +1135,7 @@ fn r_constant_variables(t: &RTree) -> Vec<Verdict> {
 // 8.22
 fn ok_immutable_rhs(e: &E) -> bool {
     match e {
-        E::NumberLiteral(..) | E::BoolLiteral(..) | E::HexNumberLiteral(..) | E::AddressLiteral(..) | E::RationalNumberLiteral(..) => true,
+        E::NumberLiteral(..) | E::BoolLiteral(..) | E::HexNumberLiteral(..) | E::AddressLiteral(..) | E::RationalNumberLiteral(..) | E::HexLiteral(..) => true,
         E::Variable(_) => true,
         E::MemberAccess(..) => true,
         E::FunctionCall(_, callee, _) => match &**callee {
